@@ -320,7 +320,7 @@ template <class T> static int loadIntoEx(T & dest, const std::string & text) {
     return is.fail() ? 4 : 0;
 }
 
-static long g_good = 0, g_fail = 0, g_threw = 0, g_exmode = 0;
+static long g_good = 0, g_fail = 0, g_threw = 0, g_exmode = 0, g_nonfinite = 0;
 static bool g_exceptionMode = true;
 // outcome tokens: f/F = failbit with destination unchanged/changed, t/T likewise for an exception, g <dump> = loaded;
 // X = the load on an exception-reporting stream ended differently (signal class or destination bits)
@@ -334,7 +334,14 @@ template <class T> static void outcome(Line & l, const T & d0, const std::string
         ++g_exmode;
         if (sig2 != sig || bitsOf(dest2) != bitsOf(dest)) { l << "X" << (size_t)sig << (size_t)sig2; return; }
     }
-    if (sig == 0) { ++g_good; l << "g" << hexOf(rem) << exactOf(dest); return; }
+    if (sig == 0) {
+        ++g_good;
+        // duplicate triplets are summed by setFromTriplets: two DBL_MAX entries moved onto the same cell give inf.
+        // Non-finite values are outside the property's quantifier (and have no exact token): outcome not judged
+        const std::string dump = exactOf(dest);
+        if (dump.find("inf") != std::string::npos || dump.find("nan") != std::string::npos) { ++g_nonfinite; l << "N"; return; }
+        l << "g" << hexOf(rem) << dump; return;
+    }
     bool same = bitsOf(dest) == d0bits;
     if (sig == 1) { ++g_fail; l << (same ? "f" : "F"); } else { ++g_threw; l << (same ? "t" : "T"); }
 }
@@ -414,6 +421,28 @@ template <class T> static void runObject(const std::string & kind, Rng & rng, Sh
         }
         std::printf("#stat trimmed_loads 2\n");
     }
+    {   // the caller's stream is not in its default formatting state when the object is written (it was used for a report
+        // in fixed notation, for hexadecimal dumps, ...); the reader's stream is a fresh one.  The writers override the
+        // precision themselves: the saved object must not depend on the other formatting flags either.
+        struct Mode { const char * name; std::ios::fmtflags set, mask; };
+        static const Mode modes[] = {
+            {"fixed", std::ios::fixed, std::ios::floatfield}, {"scientific", std::ios::scientific, std::ios::floatfield},
+            {"hexfloat", std::ios::fixed | std::ios::scientific, std::ios::floatfield},
+            {"hex", std::ios::hex, std::ios::basefield}, {"oct", std::ios::oct, std::ios::basefield},
+            {"showpos_showpoint_uppercase", std::ios::showpos | std::ios::showpoint | std::ios::uppercase, std::ios::showpos | std::ios::showpoint | std::ios::uppercase},
+            {"precision3_left", std::ios::left, std::ios::adjustfield}};
+        Line l; l << "C17" << "fmt" << head << "|" << (size_t)(sizeof modes / sizeof modes[0]);
+        for (const Mode & m : modes) {
+            std::ostringstream o2; o2.setf(m.set, m.mask); o2.precision(3);
+            writeTo(o2, x);
+            bool restored = o2.flags() == ((std::ostringstream().flags() & ~m.mask) | m.set) && o2.precision() == 3;
+            T dest = cloneOf(d0);
+            int sig = loadInto(dest, o2.str());
+            l << m.name << (size_t)sig << (sig == 0 && bitsOf(dest) == bitsOf(x)) << restored;
+        }
+        l.emit();
+        std::printf("#stat stream_flag_modes %zu\n", sizeof modes / sizeof modes[0]);
+    }
     {   // single-token corruptions
         auto toks = splitTokens(text);
         std::vector<size_t> pos;
@@ -467,7 +496,9 @@ template <class V> static bool seqStep(std::vector<std::string> & out, std::istr
     if (sig == 0) {
         std::string rem;
         if (!is.eof()) { auto p = is.tellg(); if (p >= 0) rem = src.substr((size_t)p); }
-        out.push_back("g"); out.push_back(hexOf(rem)); out.push_back(exactOf(dest));
+        const std::string dump = exactOf(dest);
+        if (dump.find("inf") != std::string::npos || dump.find("nan") != std::string::npos) { out.push_back("N"); allSaved = false; return false; }
+        out.push_back("g"); out.push_back(hexOf(rem)); out.push_back(dump);
         if (bitsOf(dest) != bitsOf(saved)) allSaved = false;
         return true;
     }
@@ -594,7 +625,20 @@ static void solverObjects(Rng & rng, const std::string & tier) {
     runObject("pss", rng, sh, sm, d2, tier);
 }
 
-static const int kWitnesses = 5;
+// finding C17-4: objects whose values need the default float notation / whose counts need base 10 (fmt lines)
+static void witnessStreamFlags(Rng & rng, const std::string & tier) {
+    {   M::Model x(2, 1), d0(2, 1); AI::Matrix2D R(2, 1); R << 1e-7 / 3, 1.0 / 3; x.setRewardFunction(R); x.setDiscount(0.9);
+        runObject("dmodel", rng, Shape{2, 1, 0}, x, d0, tier); }
+    {   M::Experience x(2, 1), d0(2, 1); for (int i = 0; i < 26; ++i) x.record(0, 0, 1, 1.0);
+        runObject("dexp", rng, Shape{2, 1, 0}, x, d0, tier); }
+    {   auto vf = PO::makeValueFunction(2); M::Values v(2); v << 1e-7 / 3, 4e-18; PO::VList vl;
+        for (size_t i = 0; i < 11; ++i) vl.push_back(PO::VEntry{v, 1, PO::VObs{0, 0}});
+        vf.push_back(vl); PO::VList v2; v2.push_back(PO::VEntry{v, 0, PO::VObs{10, 9}}); vf.push_back(v2);
+        PO::Policy x(2, 2, 2, vf), d0(2, 2, 2);
+        runObject("ppol", rng, Shape{2, 2, 2}, x, d0, tier); }
+}
+
+static const int kWitnesses = 6;
 long verif::verif_ncases(const std::string & tier) { return kWitnesses + (tier == "thorough" ? 2200 : 220); }
 
 void verif::verif_case(Rng & rng, long idx, const std::string & tier) {
@@ -603,12 +647,13 @@ void verif::verif_case(Rng & rng, long idx, const std::string & tier) {
     if (idx == 2) { witnessCopiedPolicy(); return; }
     if (idx == 3) { solverObjects(rng, tier); return; }
     if (idx == 4) { negativeZeros(); return; }
+    if (idx == 5) { witnessStreamFlags(rng, tier); return; }
     long k = (idx - kWitnesses) % 11;
     int style = (int)(((idx - kWitnesses) / 11) % 2);       // alternate dyadic / ugly
     Shape sh{(size_t)rng.range(1, 5), (size_t)rng.range(1, 3), (size_t)rng.range(1, 3)};
     if (tier == "thorough" && rng.coin(1, 6)) sh = Shape{(size_t)rng.range(4, 7), (size_t)rng.range(1, 4), (size_t)rng.range(1, 4)};
     std::printf("#stat style:%d 1\n", style);
-    g_good = g_fail = g_threw = g_exmode = 0;
+    g_good = g_fail = g_threw = g_exmode = g_nonfinite = 0;
     switch (k) {
         case 0: runKind<M::Model>("dmodel", rng, sh, style, tier); break;
         case 1: runKind<M::SparseModel>("smodel", rng, sh, style, tier); break;
@@ -622,7 +667,7 @@ void verif::verif_case(Rng & rng, long idx, const std::string & tier) {
         case 9: runKind<PO::SparseModel<M::Model>>("psd", rng, sh, style, tier); break;
         default: runKind<AI::Vector>("vec", rng, sh, style, tier); break;
     }
-    std::printf("#stat load_good %ld\n#stat load_failbit %ld\n#stat load_threw %ld\n#stat loads_repeated_in_exception_mode %ld\n", g_good, g_fail, g_threw, g_exmode);
+    std::printf("#stat load_good %ld\n#stat load_failbit %ld\n#stat load_threw %ld\n#stat loads_repeated_in_exception_mode %ld\n#stat loaded_nonfinite_not_judged %ld\n", g_good, g_fail, g_threw, g_exmode, g_nonfinite);
 }
 
 VERIF_MAIN
